@@ -217,6 +217,7 @@ def run(ctx):
     mine = [s for i, s in enumerate(all_sc) if i % ctx.nshards == ctx.shard]
     quick = ctx.tier == "quick"
     per_scenario_budget = (3.0 if quick else 120.0)
+    widened = {}
     for sc in mine:
         for nthreads in sc["threads"]:
             if nthreads == 3:
@@ -281,12 +282,26 @@ def run(ctx):
                     for bad in sc["post"](base["cur"], objs[0]):
                         ctx.violation(f"C20:lookup-returns-another-object:{sc['name']}", f"{label}: after all threads obtained one object, {bad} under schedule {case['schedule']}", case)
 
+            # the windows to preempt in are the functions this expression enters today: the listed ones plus whatever
+            # else of the same classes (or module-level helpers) one plain evaluation is seen to call - a helper that
+            # was renamed, merged or moved out of its class is still traced
+            if f"{sc['name']}" not in widened:
+                owners = {q.split(".")[0] for q in sc["traced"]}
+                entered = set()
+                for f in make(-1):
+                    entered |= sched.discover(f, target)
+                extra = {q for q in entered if q not in sc["traced"] and "<" not in q and (q.split(".")[0] in owners or "." not in q)}
+                widened[sc["name"]] = frozenset(sc["traced"] | extra)
+                for q in sorted(extra):
+                    ctx.cov.setdefault("functions_traced_beyond_the_listed_ones", {}).setdefault(sc["name"], []).append(q)
+                ctx.count("traced_functions_discovered", len(extra))
+            traced = widened[sc["name"]]
             deadline = time.time() + per_scenario_budget
             # iterative preemption bounding: every lower bound is completed before the next one starts, so a
             # time cap can only truncate the highest bound
             n, seen, done = 0, set(), []
             for bnd in range(1, bound + 1):
-                k, sn, complete = sched.explore(make, sc["traced"], target, check, max_preempt=bnd, limit=200000, deadline=deadline if bnd > 1 else None)
+                k, sn, complete = sched.explore(make, traced, target, check, max_preempt=bnd, limit=200000, deadline=deadline if bnd > 1 else None)
                 n += k
                 seen |= sn
                 done.append(f"bound {bnd}: {'complete' if complete else 'time-capped'} ({k} executions)")
@@ -295,7 +310,7 @@ def run(ctx):
             ctx.count(f"schedules_enumerated/{label}", n)
             ctx.cov.setdefault("complete_within_bound", {})[label] = "; ".join(done)
             # seeded random schedules beyond the bound
-            rn = sched.random_schedules(make, sc["traced"], target, check, rng, (60 if quick else 4000), seen, deadline=time.time() + per_scenario_budget / 2)
+            rn = sched.random_schedules(make, traced, target, check, rng, (60 if quick else 4000), seen, deadline=time.time() + per_scenario_budget / 2)
             ctx.count(f"random_schedules/{label}", rn)
             if len(ctx.samples) < 3 and n:
                 ctx.sample({"scenario": label, "preemption_bound": bound, "schedules": n, "distinct_traces": len(seen)})
